@@ -778,3 +778,76 @@ Definition ed_del_ch (n : N) (g : gr) : gr :=
   set_node g n (fun a => NA (a_el a) (a_ar a) (a_hc a) None (a_am a) (a_tgh a)).
 Definition ed_set_ch (n : N) (v : Z) (g : gr) : gr :=
   set_node g n (fun a => NA (a_el a) (a_ar a) (a_hc a) (Some v) (a_am a) (a_tgh a)).
+
+(** * More of the API surface (round 3) *)
+(** ** MolToGraph.mol_to_graph(mol, drop_non_aam, light_weight, use_index_as_atom_map)
+    light_weight=False is _create_detailed_graph: the same node and bond loops as transform ("if b and e" instead of
+    "is None": ids are >= 1).  light_weight=True is _create_light_weight_graph: ONE loop over the atoms, each atom adds its
+    own node and then an edge for each of its bonds (atom.GetBonds() order, given as [ab]: per atom the list of
+    (neighbour index, 2 * bond type)), so a neighbour may enter the graph (with an empty dictionary) before its own turn. *)
+Definition nth_atom (atoms : list ratom) (i : N) : option ratom := nth_error atoms (N.to_nat i).
+Definition light_bond (atoms : list ratom) (drop ui : bool) (id : N) (acc : gr) (b : N * Z) : gr :=
+  match nth_atom atoms (fst b) with
+  | Some nb => if negb drop || negb (r_map nb =? 0)
+               then add_edge acc id (atom_id ui (fst b) nb) (EA (Some (OS (snd b))) None) else acc
+  | None => acc
+  end.
+Fixpoint light_loop (atoms : list ratom) (drop ui : bool) (idx : N) (rest : list (ratom * list (N * Z))) (g : gr) : gr :=
+  match rest with
+  | [] => g
+  | (a, bs) :: r =>
+      light_loop atoms drop ui (N.succ idx) r
+        (if drop && (r_map a =? 0) then g
+         else fold_left (light_bond atoms drop ui (atom_id ui idx a)) bs (add_node g (atom_id ui idx a) (atom_att a)))
+  end.
+Definition mol_to_graph_light (m : rmol) (ab : list (list (N * Z))) (drop ui : bool) : gr :=
+  light_loop (fst m) drop ui 0%N (combine (fst m) ab) g_empty.
+
+(** ** GraphToMol.graph_to_mol(graph, ignore_bond_order, sanitize, use_h_count) *)
+Definition g2m_bond_gen (ignore : bool) (ids : list N) (e : N * N * eatt) : option (N * N * Z) :=
+  let '(u, v, x) := e in
+  match (if ignore then None else e_ord x) with
+  | Some (OP _ _) => None
+  | o => match index_of u ids 0%N, index_of v ids 0%N with
+         | Some i, Some j => if N.eqb i j then None
+                             else Some (i, j, if ignore then 2 else bond_type (match o with Some (OS z) => z | _ => 2 end))
+         | _, _ => None
+         end
+  end.
+Definition graph_to_mol_gen (ignore use_h : bool) (g : gr) : option (list watom * list (N * N * Z)) :=
+  let bonds := map (g2m_bond_gen ignore (node_ids g)) (edges_iter g) in
+  if forallb (fun b : option (N * N * Z) => match b with Some _ => true | None => false end) bonds
+  then Some (map (fun p : N * natt => let a := snd p in WAt (dflt (a_el a) s_star) (dflt (a_ch a) 0) (a_am a) (pick use_h (a_hc a)))
+                 (gnodes g),
+             flat_map (fun b : option (N * N * Z) => match b with Some x => [x] | None => [] end) bonds)
+  else None.
+
+(** ** implicit_hydrogen(graph, preserve_atom_maps, reindex=False) (repaired code 7332273: works on a real copy), the
+    path graph_to_smi / graph_to_rsmi take when hydrogens are to stay explicit: every heavy atom takes its hydrogen
+    neighbours into hcount, the preserved hydrogens (by atom map) are given back, the others are removed *)
+Definition add_hc (d : Z) (a : natt) : natt :=
+  NA (a_el a) (a_ar a) (Some (dflt (a_hc a) 0 + d)) (a_ch a) (a_am a) (a_tgh a).
+Definition memZ (x : Z) (l : list Z) : bool := existsb (Z.eqb x) l.
+Definition implicit_hydrogen (g : gr) (preserve : list Z) : gr :=
+  let g0 := copy g in
+  let g1 := fold_left (fun acc n => if is_H g0 n then acc
+                                    else set_node acc n (add_hc (Z.of_nat (List.length (filter (is_H g0) (nbrs g0 n))))))
+                      (node_ids g0) g0 in
+  let pres := filter (fun n => is_H g0 n && match label g0 n with Some a => memZ (dflt (a_am a) 0) preserve | None => false end)
+                     (node_ids g0) in
+  let g2 := fold_left (fun acc h => fold_left (fun acc2 nb => if is_H g0 nb then acc2 else set_node acc2 nb (add_hc (-1)))
+                                              (nbrs g0 h) acc) pres g1 in
+  fold_left remove_node (filter (fun n => is_H g0 n && negb (mem n pres)) (node_ids g0)) g2.
+(** graph_to_smi(graph, preserve_atom_maps) up to the RWMol *)
+Definition graph_to_smi_mol (g : gr) (preserve : list Z) : option (list watom * list (N * N * Z)) :=
+  match preserve with [] => graph_to_mol g | _ => graph_to_mol (implicit_hydrogen g preserve) end.
+
+(** vocabulary of C10_rsmi_graph_mol_ok: RDKit bond types, and the mapped atoms of a molecule as (node id, attributes) *)
+Definition okord (o : Z) : bool := (o =? 2) || (o =? 3) || (o =? 4) || (o =? 6).
+Fixpoint numT (l : list ratom) : list (N * natt) :=
+  match l with [] => [] | a :: r => (if r_map a =? 0 then [] else [(Z.to_N (r_map a), atom_att a)]) ++ numT r end.
+(** an RDKit molecule as rsmi_to_graph needs it: element symbols in [A-Za-z*]+, single / aromatic / double / triple bonds,
+    distinct map numbers on the mapped atoms *)
+Definition rdmol_ok (m : rmol) : bool :=
+  wf_mol m && forallb (fun a => elem_ok (r_sym a)) (fst m) && forallb (fun b : N * N * Z => okord (snd b)) (snd m)
+  && nodupb (map fst (numT (fst m))).
